@@ -658,6 +658,9 @@ def c2s(ctx, ntables, nsessions):
         if o['op'] == 'session':
             k, clause = clause.split(':')
             e = o['calls'][int(k) - 1]
+            if clause == 'edit_not_as_logged':          # the caller's own edit is the driver's doing, not the library's
+                from harness.core import Machinery
+                raise Machinery('C06 sessions: a recorded edit is not the edit that was logged: %r' % (e,))
             ctx.violation(clause, session_case(o, int(k)), {'observed': e.get('out'), 'pool_after': e['pool_after'], 'after': e.get('t_after')})
             continue
         ctx.violation(clause, {k: o[k] for k in ('op', 't', 'cond', 'spelling', 'excl', 'find') if k in o} | ({'col': o['col']} if 'col' in o else {}),
@@ -691,21 +694,19 @@ def sessions(ctx):
         # round 4: call ; the caller edits an object of that call ; a call that can see it (live / fresh objects with the old
         # contents, on the table / its result / a second table)
         snaps = gen_sessions(ctx, 'MC_IncSession_edit.cfg')
-        need_forms(snaps, 'MC_IncSession_edit.cfg', ('edit-list', 'edit-set', 'edit-del', "inc(d')", "exc(**d')", "u.inc(d')", "u.find(d')", 'u.exc(d)', 'r.inc(d)', "one(d')", 'inc(**d)'))
+        need_forms(snaps, 'MC_IncSession_edit.cfg', ('edit-list', 'edit-set', 'edit-del', "inc(d')", "exc(**d')", "u.inc(d')", "u.find(d')", "u.exc(**d')", 'r.inc(d)', "one(d')", 'inc(**d)'))
         # (each in a process of its own, see isolated_sessions; the quick tier replays a seeded sample of them, the thorough tier all)
-        s2c_sessions(ctx, ctx.rng.sample(snaps, min(len(snaps), 1500)), 'edit', isolate=True)
+        s2c_sessions(ctx, ctx.rng.sample(snaps, min(len(snaps), 1000)), 'edit', isolate=True)
         # the names of the columns and the realisations of the callables as data of the case
-        snaps = gen_sessions(ctx, 'MC_IncSession_names.cfg')
+        snaps = gen_sessions(ctx, 'MC_IncSession_namesreals.cfg')
         got = {tuple(x['rt']['cols']) for x in snaps}
         for need in (('data', 'key'), ('columns', 'data'), ('self', 'filters'), ('b', 'a'), ('x y', '1')):
             if need not in got:
-                raise Machinery('vacuous: no generated history of MC_IncSession_names.cfg is on a table with the columns %r' % (need,))
-        s2c_sessions(ctx, snaps, 'names')
-        snaps = gen_sessions(ctx, 'MC_IncSession_reals.cfg')
+                raise Machinery('vacuous: no generated history of MC_IncSession_namesreals.cfg is on a table with the columns %r' % (need,))
         got = {f['real'] for x in snaps for h in seq(x['hist']) for sl in seq(h['call']['pos']) for f in [x['pool'][sl - 1]] if f['kind'] == 'pred'}
         if got != set(REALS):
-            raise Machinery('vacuous: the callables handed over in MC_IncSession_reals.cfg are realised as %r, not as %r' % (sorted(got), REALS))
-        s2c_sessions(ctx, snaps, 'reals')
+            raise Machinery('vacuous: the callables handed over in MC_IncSession_namesreals.cfg are realised as %r, not as %r' % (sorted(got), REALS))
+        s2c_sessions(ctx, snaps, 'names+reals')
     else:
         ctx.mc('MC_IncSession', 'MC_IncSession_thorough.cfg')
         # the model can express what it forbids: with `filters` BEING the caller's lone dict the pool does not survive inc(q1, q2)
